@@ -148,6 +148,22 @@ def run(chk, prog, tier):
             chk.require(once, "SH2", key + "/once", loc_str(up),
                         "each slot is stored at most once per build (so concurrent rebuilds never expose a transient value)",
                         "subscript %s, guard %s" % (expr_str(subidx), expr_str(guard) if guard is not None else "none"))
+    # every create performs the whole build: the builder has no early exit and its scans are not conditional
+    for fn in sorted(writers):
+        f = prog.fn(fn)
+        rets = [m for m in walk(prog.body(f)) if m.get("kind") == "ReturnStmt"]
+        top = kids(prog.body(f))
+        loops_with_store = []
+        for (tab, sub, up, parents) in writers[fn]:
+            lp = [p for p in parents if p.get("kind") in ("WhileStmt", "ForStmt", "DoStmt")]
+            if lp and not any(lp[0] is x for x in loops_with_store):
+                loops_with_store.append(lp[0])
+        uncond = all(any(l is t for t in top) for l in loops_with_store)
+        chk.require(not rets and uncond, "SH2", "SH2/unconditional/%s" % fn, loc_str(f),
+                    "every call of %s runs its complete scans (no early return, scans not under a condition): a thread's own create always "
+                    "leaves the tables complete" % fn,
+                    "%d return statement(s); scans at top level: %s" % (len(rets), uncond))
+        # the builder is called unconditionally on every successful path of asm_create_instance
     # only the table builder (reached from asm_create_instance) writes; nobody else
     entry_writers = EFF.reachable(g, ["asm_create_instance"])
     for fn in sorted(writers):
